@@ -367,3 +367,180 @@ def _type_string_cases(seed, tier):
 
 
 create_type_string.native_cases = staticmethod(_type_string_cases)
+
+
+# ------------------------------------------------------------------------------------------------ parameters (C06, C20, C09, C02)
+from safeds_stubgen.api_analyzer._api import ParameterAssignment, UnknownValue  # noqa: E402
+from specs.types import TD  # noqa: E402
+
+INDENT = "    "
+
+
+def ANNOT(name, nc, is_class):
+    """@PythonName annotation text, present exactly when the converted name differs (C09)."""
+    return ('@PythonName("' + name + '")') if CONV(name, nc, is_class) != name else ""
+
+
+def DEFAULT_TEXT(p):
+    """Stub text of a parameter default: true/false/null/unknown, numbers as written, strings as stored
+    (already quoted by the analyser); the empty *args / **kwargs placeholders map to [] and {}."""
+    v = p.default_value
+    if isinstance(v, str):
+        return "[]" if (p.assigned_by == ParameterAssignment.POSITIONAL_VARARG and v == "()") else v
+    if isinstance(v, bool):
+        return "true" if v else "false"
+    if v is None:
+        return "null"
+    if isinstance(v, UnknownValue):
+        return "unknown"
+    return str(v)
+
+
+def WITH_KIND(td, kind):
+    td["kind"] = kind
+    return td
+
+
+def PARAM_TD(p):
+    """Type dictionary a parameter is rendered from: *args tuples are presented as lists."""
+    td = TD(p.type)
+    return WITH_KIND(td, "ListType") if (p.assigned_by == ParameterAssignment.POSITIONAL_VARARG and td["kind"] == "TupleType") else td
+
+
+def PARAM_TYPE_TEXT(nc, p):
+    if p.type is not None:
+        ts = R(nc, PARAM_TD(p))
+        return (": " + ts) if ts else ""
+    if p.assigned_by == ParameterAssignment.POSITIONAL_VARARG:
+        return ": List<Any>"
+    if p.assigned_by == ParameterAssignment.NAMED_VARARG:
+        return ": Map<String, Any>"
+    return ""
+
+
+def PARAM(nc, p):
+    ann = ANNOT(p.name, nc, False)
+    value = (" = " + DEFAULT_TEXT(p)) if (p.type is not None and p.is_optional) else ""
+    return (ann + " " if ann else "") + ESC(CONV(p.name, nc, False)) + PARAM_TYPE_TEXT(nc, p) + value
+
+
+def PARAM_MARKERS(p):
+    """TODO markers one parameter raises (C20)."""
+    out = set()
+    if p.type is None:
+        out = out | {"param without type"}
+    else:
+        out = out | TF(PARAM_TD(p))
+        if p.is_optional and isinstance(p.default_value, UnknownValue):
+            out = out | {"unknown value"}
+    if p.assigned_by == ParameterAssignment.POSITION_ONLY and p.is_optional:
+        out = out | {"OPT_POS_ONLY"}
+    if p.assigned_by == ParameterAssignment.NAME_ONLY and not p.is_optional:
+        out = out | {"REQ_NAME_ONLY"}
+    if p.assigned_by == ParameterAssignment.POSITIONAL_VARARG or p.assigned_by == ParameterAssignment.NAMED_VARARG:
+        out = out | {"variadic"}
+    return out
+
+
+def SHOWN(parameters, is_instance_method):
+    """The Python parameter list without the implicit receiver."""
+    if is_instance_method:
+        return parameters[1:]
+    return parameters
+
+
+@opaque(returns="str")
+def PARAMS(nc, parameters, indent, is_instance_method):
+    texts = [PARAM(nc, p) for p in SHOWN(parameters, is_instance_method)]
+    inner = indent + INDENT
+    return ("\n" + inner + (",\n" + inner).join(texts) + "\n" + indent) if texts else ""
+
+
+@opaque(ann="set")
+def PARAMS_MARKERS(parameters, is_instance_method):
+    out = set()
+    for p in SHOWN(parameters, is_instance_method):
+        out = out | PARAM_MARKERS(p)
+    return out
+
+
+@opaque(ann="set")
+def PARAMS_IMPORTS(gen, parameters, is_instance_method):
+    out = set()
+    for p in SHOWN(parameters, is_instance_method):
+        out = out | (IMPS(gen, PARAM_TD(p)) if p.type is not None else set())
+    return out
+
+
+@opaque(ann="set")
+def PARAMS_ICA(gen, parameters, is_instance_method):
+    return set()
+
+
+@contract(_G + "_create_parameter_string", props=["C06", "C20", "C09", "C02"])
+class create_parameter_string:
+    params = {"parameters": "list[Parameter]", "indentations": "str", "is_instance_method": "bool"}
+    modifies = ["self._current_todo_msgs", "self.module_imports", "self.classes_outside_package"]
+    safety = False
+    unfold = ["PARAMS", "PARAMS_MARKERS"]
+
+    def requires(self, parameters, indentations, is_instance_method):
+        # model invariant established by the analyser: a parameter with a default has a type
+        return all((p.type is not None) or (not p.is_optional) for p in parameters)
+
+    @clause(props=["C06", "C09", "C02"], mode="bounded")
+    def ensures_list(self, parameters, indentations, is_instance_method, result):
+        return result == PARAMS(self.naming_convention, parameters, indentations, is_instance_method)
+
+    @clause(props=["C20"], mode="bounded")
+    def ensures_markers(self, parameters, indentations, is_instance_method):
+        return self._current_todo_msgs - FREE_MARKERS == \
+            (old(self._current_todo_msgs) | PARAMS_MARKERS(parameters, is_instance_method)) - FREE_MARKERS
+
+    @clause(props=["C20"], mode="use")
+    def ensures_markers_use(self, parameters, indentations, is_instance_method):
+        return self._current_todo_msgs == old(self._current_todo_msgs) | PARAMS_MARKERS(parameters, is_instance_method) \
+            | PARAMS_ICA(self, parameters, is_instance_method)
+
+    @clause(props=["C11"], mode="use")
+    def ensures_imports_use(self, parameters, indentations, is_instance_method):
+        return self.module_imports == old(self.module_imports) | PARAMS_IMPORTS(self, parameters, is_instance_method)
+
+
+def _mk_params(n_variants=None):
+    """Parameter objects over every passing kind x {typed, untyped} x a few defaults."""
+    from safeds_stubgen.api_analyzer import _types as T
+    from safeds_stubgen.api_analyzer._api import Parameter
+    from safeds_stubgen.docstring_parsing import ParameterDocstring
+    PA = ParameterAssignment
+    tys = [None, T.NamedType("int", "builtins.int"), T.TupleType([T.NamedType("str", "builtins.str")]),
+           T.SetType([T.NamedType("int", "builtins.int")]), T.NamedType("my_cls", "other.m.my_cls")]
+    defaults = [(False, None), (True, None), (True, True), (True, 3), (True, '"x"'), (True, "()"), (True, "{}"), (True, UnknownValue())]
+    names = ["a", "my_param", "val", "_x"]
+    out = []
+    i = 0
+    for kind in PA:
+        for ty in tys:
+            for (opt, dv) in defaults:
+                if ty is None and opt:
+                    continue
+                nm = names[i % len(names)]
+                i += 1
+                out.append(Parameter(id=f"f/{nm}", name=nm, is_optional=opt, default_value=dv, assigned_by=kind,
+                                     docstring=ParameterDocstring(), type=ty))
+    return out
+
+
+def _param_string_cases(seed, tier):
+    ps = _mk_params()
+    import itertools
+    for conv in (False, True):
+        for inst in (False, True):
+            yield {"self": _mk_gen(conv), "kwargs": {"parameters": [], "indentations": "", "is_instance_method": inst}}
+            for p in ps:
+                yield {"self": _mk_gen(conv), "kwargs": {"parameters": [ps[0], p], "indentations": "    ", "is_instance_method": inst}}
+            for a, b in itertools.islice(itertools.combinations(ps[::7], 2), 60):
+                yield {"self": _mk_gen(conv), "kwargs": {"parameters": [a, b, a], "indentations": "", "is_instance_method": inst}}
+
+
+create_parameter_string.native_cases = staticmethod(_param_string_cases)
